@@ -110,6 +110,51 @@ def vmp1(p, res):
     return n
 
 
+def fft1(p, res):
+    """the FFT64 transform picks its strategy (breadth-first passes up to a size, recursive splitting above) in several places - the twiddle-table builder, the table filler,
+    the executor's dispatch, the recursive executor, reference and AVX - and each of them compares the transform size with the cut-over constant on its own.  The table is laid
+    out for the strategy its builder chose: every site of one direction (forward / inverse) has to compare with the same constant, otherwise sizes between two thresholds are
+    executed by one strategy over the table of the other."""
+    from collections import defaultdict
+    from .cfg import Flow
+    sites = defaultdict(list)
+    for f in sorted(p.lib_fns(), key=lambda x: x.uid):
+        if f.is_test() or not f.blocks or "fft64::reim::" not in f.uid:
+            continue
+        flow = None
+        for blk in f.blocks:
+            if blk["c"]:
+                continue
+            for s in blk["s"]:
+                if not (s[0] == "A" and s[2]["k"] == "Bin" and s[2]["op"] in ("Le", "Lt", "Gt", "Ge")):
+                    continue
+                a, b = s[2]["o"]
+                for x, y, flip in ((a, b, False), (b, a, True)):
+                    if y[0] == "k" and isinstance(y[1].get("v"), int) and y[1]["v"] > 16:
+                        flow = flow or Flow(f)
+                        if any(r[0] == "param" and not r[2] and f.local_ty(r[1])["s"] == "usize" for r in flow.op_roots(x)):
+                            op = s[2]["op"]
+                            if flip:
+                                op = {"Le": "Ge", "Lt": "Gt", "Gt": "Lt", "Ge": "Le"}[op]
+                            thr = y[1]["v"] if op in ("Le", "Gt") else y[1]["v"] - 1
+                            sites["inverse" if "ifft" in f.uid.split("fft64::reim::")[1] else "forward"].append((f, thr, s[3]))
+    n = 0
+    for d, lst in sorted(sites.items()):
+        vals = defaultdict(list)
+        for f, thr, line in lst:
+            vals[thr].append((f, line))
+        major = max(vals, key=lambda v: len(vals[v]))
+        for thr, fl in sorted(vals.items()):
+            for f, line in fl:
+                n += 1
+                if thr != major:
+                    res.bad("FFT-1", f.pretty, "cut-over:%s" % d, "%s switches strategy at transform size %d while %d other sites of the %s transform (table builder, filler, executors) "
+                            "switch at %d: sizes in between run one strategy over the twiddle table laid out for the other" % (f.pretty, thr, len(vals[major]), d, major), site=f.where(line))
+                else:
+                    res.ok("FFT-1", {"fn": f.pretty, "direction": d, "cut_over": thr} if n % 3 == 1 else None)
+    return n
+
+
 def run(res, tier):
     res.level = "other"
     res.explanation = ("Only the limb bookkeeping of C07 is decided, on MIR of the DFT-domain shape functions of both families: overwrite-type operations (dft_apply with its (step, offset) "
@@ -125,6 +170,7 @@ def run(res, tier):
     res.rule("BK-9", "same-name shape functions of reference::fft64 and reference::ntt120 compare a parameter against bounds that depend on the same parameters")
     res.rule("WR-9", "in-place limb-wise loops run over the whole overlap of the two limb windows: trip count == max(min(size(res) - r, size(a) - s), 0)")
     res.rule("VMP-1", "vector-matrix apply cores: the single-column kernel is reached only on paths whose comparisons imply ncols == truncated column count (the column is stored unpaired)")
+    res.rule("FFT-1", "every site of the FFT64 transform that compares the transform size with the breadth-first / recursive cut-over uses the same constant per direction")
     res.rule("BK-8", "where the reference kernel uses i64::wrapping_mul the AVX kernel does not multiply with _mm256_mul_epi32")
     res.assumptions = ["kernels compute the transform / product on the limbs they are given (floating-point and modular arithmetic not decided)"]
     cfgs = ["avx-dev"] if tier == "quick" else ["avx-dev", "ref-dev"]
@@ -150,6 +196,8 @@ def run(res, tier):
         res.floor("WR-9", "in-place limb-wise loops of the C07 files", n9w, 6)
         nv = vmp1(p, res)
         res.floor("VMP-1", "vmp apply cores", nv, 2)
+        nf = fft1(p, res)
+        res.floor("FFT-1", "strategy cut-over comparisons", nf, 8)
         from .c10 import bk9, bk8
         n9 = bk9(p, res)
         res.floor("BK-9", "family shape functions with parameter bounds", n9, 1)
